@@ -10,11 +10,17 @@
 // Oracle: the reference loop of DESIGN.md appendix A.3 (func reference below),
 // written from the statement, never from notation.go.
 //
-// Bounds (each pass x 9 limits x 5 reference kinds, pagings = all compositions
+// Bounds (each pass x 9 limits x 22 references, pagings = all compositions
 // plus one empty page at every position):
 //
 //	thorough: scripted 4 kinds k<=6; skip policy 4 kinds k<=4; real signatures 3 kinds k<=3
-//	quick:    scripted 4 kinds k<=5; skip policy 3 kinds k<=3 (no empty pages); real signatures 3 kinds k<=2
+//	quick:    scripted 4 kinds k<=5 (empty pages for k<=4); skip policy 3 kinds k<=3 (no empty pages); real signatures 3 kinds k<=2
+//
+// Reference kinds (hand-labelled, 11) x what the repository resolves (a sha256 or
+// a sha512 descriptor): tag, tag spelled like a digest, matching digest,
+// mismatching digests of every registered algorithm (sha256/384/512; the other
+// algorithms hash the SAME content), the matching digest in upper-case hex /
+// one hex digit short / one too long, no tag or digest, garbage.
 //
 // Replay case = {verifier, policy, listing kinds, page sizes, limit, reference kind}.
 package main
@@ -22,6 +28,8 @@ package main
 import (
 	"bytes"
 	"context"
+	"crypto/sha256"
+	"crypto/sha512"
 	"fmt"
 	"strings"
 	"sync/atomic"
@@ -56,15 +64,110 @@ var kindNames = []string{"valid", "invalid", "unfetchable", "invalid-nil-outcome
 type refKind uint8
 
 const (
-	rTag refKind = iota
-	rDigest
-	rOther
+	rTag           refKind = iota
+	rTagDigestLike         // a TAG spelled like a digest ("sha256-<hex of another artifact>"): still a tag
+	rDigest                // the digest the repository resolves
+	rOther256              // well-formed digests that differ from the resolved one, one per registered algorithm
+	rOther384
+	rOther512
+	rUpperHex  // the resolved digest with upper-case hex: malformed, and a different string
+	rTruncated // the resolved digest without its last hex digit
+	rTooLong   // the resolved digest with one more hex digit
 	rNone
 	rGarbage
+	nRefs
 )
 
-var refNames = []string{"tag", "digest-matching", "digest-other", "no-tag-or-digest", "garbage"}
-var allRefs = []refKind{rTag, rDigest, rOther, rNone, rGarbage}
+var refNames = []string{"tag", "tag-digest-like", "digest-matching", "digest-other-sha256", "digest-other-sha384", "digest-other-sha512",
+	"digest-uppercase-hex", "digest-truncated", "digest-too-long", "no-tag-or-digest", "garbage"}
+
+func (k refKind) isTag() bool       { return k == rTag || k == rTagDigestLike }
+func (k refKind) isMismatch() bool  { return k == rOther256 || k == rOther384 || k == rOther512 }
+func (k refKind) isMalformed() bool { return k == rUpperHex || k == rTruncated || k == rTooLong }
+
+// refT is one (resolved descriptor, reference) combination, hand-labelled.
+type refT struct {
+	world int
+	kind  refKind
+}
+
+var allRefs = func() []refT {
+	var out []refT
+	for w := 0; w < nWorlds; w++ {
+		for k := refKind(0); k < nRefs; k++ {
+			out = append(out, refT{w, k})
+		}
+	}
+	return out
+}()
+
+// world: what the mock repository resolves EVERY reference to, and the reference strings built around it.
+// None of the descriptor's fields but the digest can come from the caller.
+type world struct {
+	name       string
+	resolved   ocispec.Descriptor
+	refStrings []string
+	resolveArg []string // hand-written: the part of the reference the repository has to be asked for
+}
+
+const nWorlds = 2
+
+var worldNames = []string{"sha256", "sha512"}
+var worlds = buildWorlds()
+
+func buildWorlds() []*world {
+	const content = "C10: the artifact manifest the repository resolves"
+	const another = "C10: another artifact manifest"
+	hexOf := func(alg, text string) string {
+		switch alg {
+		case "sha256":
+			return fmt.Sprintf("%x", sha256.Sum256([]byte(text)))
+		case "sha384":
+			return fmt.Sprintf("%x", sha512.Sum384([]byte(text)))
+		}
+		return fmt.Sprintf("%x", sha512.Sum512([]byte(text)))
+	}
+	var out []*world
+	for _, alg := range worldNames {
+		own := hexOf(alg, content)
+		w := &world{name: alg, resolved: ocispec.Descriptor{MediaType: mtManifest, Digest: digest.Digest(alg + ":" + own), Size: 528, ArtifactType: "application/vnd.example.c10.resolved"}}
+		// the mismatching digests: another artifact under the resolved algorithm, the SAME content under the other algorithms
+		other := func(a string) string {
+			if a == alg {
+				return a + ":" + hexOf(a, another)
+			}
+			return a + ":" + hexOf(a, content)
+		}
+		w.resolveArg = []string{
+			rTag:           tagName,
+			rTagDigestLike: alg + "-" + hexOf(alg, another)[:64], // a valid tag (<= 128 characters): the digest, or a prefix of it, of another artifact
+			rDigest:        alg + ":" + own,
+			rOther256:      other("sha256"),
+			rOther384:      other("sha384"),
+			rOther512:      other("sha512"),
+			rUpperHex:      alg + ":" + strings.ToUpper(own),
+			rTruncated:     alg + ":" + own[:len(own)-1],
+			rTooLong:       alg + ":" + own + "0",
+			rNone:          "",
+			rGarbage:       "",
+		}
+		w.refStrings = make([]string, nRefs)
+		for k := refKind(0); k < nRefs; k++ {
+			switch {
+			case k.isTag():
+				w.refStrings[k] = repoName + ":" + w.resolveArg[k]
+			case k == rNone:
+				w.refStrings[k] = repoName
+			case k == rGarbage:
+				w.refStrings[k] = "reg.io/Bad Repo!!" // no tag, no digest, not a repository name either
+			default:
+				w.refStrings[k] = repoName + "@" + w.resolveArg[k]
+			}
+		}
+		out = append(out, w)
+	}
+	return out
+}
 
 const (
 	pScripted = iota // scripted verifier (no skip hook), non-skip
@@ -85,19 +188,8 @@ const (
 )
 
 var (
-	// what the mock repository resolves EVERY reference to; none of its fields but the digest can come from the caller
-	resolved  = ocispec.Descriptor{MediaType: mtManifest, Digest: digest.FromString("C10: the artifact manifest the repository resolves"), Size: 528, ArtifactType: "application/vnd.example.c10.resolved"}
-	otherDesc = ocispec.Descriptor{MediaType: mtManifest, Digest: digest.FromString("C10: another artifact manifest"), Size: 529}
-
-	refStrings = []string{
-		rTag:     repoName + ":" + tagName,
-		rDigest:  repoName + "@" + resolved.Digest.String(),
-		rOther:   repoName + "@" + otherDesc.Digest.String(),
-		rNone:    repoName,
-		rGarbage: "reg.io/Bad Repo!!", // no tag, no digest, not a repository name either
-	}
-	// hand-written: the part of the reference the repository has to be asked for
-	resolveArg = []string{rTag: tagName, rDigest: resolved.Digest.String(), rOther: otherDesc.Digest.String()}
+	// the artifact the "invalid" real signatures sign
+	otherDesc = ocispec.Descriptor{MediaType: mtManifest, Digest: digest.FromString("C10: yet another artifact manifest"), Size: 529}
 
 	manifests     []ocispec.Descriptor // listed descriptor of signature i
 	blobDescs     []ocispec.Descriptor // descriptor FetchSignatureBlob returns for signature i
@@ -121,8 +213,8 @@ func initFixtures() {
 type realFixtures struct {
 	strict realVerifier
 	skip   realVerifier
-	blobs  [][2][]byte // [position][0: signs the resolved descriptor, 1: signs another descriptor]
-	descs  [][2]ocispec.Descriptor
+	blobs  [nWorlds][][2][]byte // [world][position][0: signs the resolved descriptor, 1: signs another descriptor]
+	descs  [nWorlds][][2]ocispec.Descriptor
 	index  map[string]int
 }
 
@@ -151,17 +243,19 @@ func buildReal(r *hx.Run, n int) *realFixtures {
 	}
 	fx.strict, fx.skip = mk(strictDoc), mk(skipDoc)
 	signingTime := time.Now().Add(-2 * time.Hour).Truncate(time.Second)
-	for i := 0; i < n; i++ {
-		var pair [2][]byte
-		var dpair [2]ocispec.Descriptor
-		for j, target := range []ocispec.Descriptor{resolved, otherDesc} {
-			b := forge.Build(forge.Spec{Format: blobDescs[i].MediaType, Chain: chain.X509(), Key: chain.Leaf().Key, Payload: forge.PayloadFor(target), SigningTime: signingTime, Agent: fmt.Sprintf("c10/%d/%d", i, j)})
-			pair[j] = b
-			dpair[j] = ocispec.Descriptor{MediaType: blobDescs[i].MediaType, Digest: digest.FromBytes(b), Size: int64(len(b))}
-			fx.index[string(b)] = i
+	for w := 0; w < nWorlds; w++ {
+		for i := 0; i < n; i++ {
+			var pair [2][]byte
+			var dpair [2]ocispec.Descriptor
+			for j, target := range []ocispec.Descriptor{worlds[w].resolved, otherDesc} {
+				b := forge.Build(forge.Spec{Format: blobDescs[i].MediaType, Chain: chain.X509(), Key: chain.Leaf().Key, Payload: forge.PayloadFor(target), SigningTime: signingTime, Agent: fmt.Sprintf("c10/%d/%d/%d", w, i, j)})
+				pair[j] = b
+				dpair[j] = ocispec.Descriptor{MediaType: blobDescs[i].MediaType, Digest: digest.FromBytes(b), Size: int64(len(b))}
+				fx.index[string(b)] = i
+			}
+			fx.blobs[w] = append(fx.blobs[w], pair)
+			fx.descs[w] = append(fx.descs[w], dpair)
 		}
-		fx.blobs = append(fx.blobs, pair)
-		fx.descs = append(fx.descs, dpair)
 	}
 	return fx
 }
@@ -174,7 +268,10 @@ type caseT struct {
 	pages []int
 	n     int
 	ref   refKind
+	world int // which descriptor the repository resolves (worlds[world])
 }
+
+func (c *caseT) w() *world { return worlds[c.world] }
 
 type replayCase struct {
 	Verifier        string   `json:"verifier"` // scripted | real
@@ -183,11 +280,12 @@ type replayCase struct {
 	Pages           []int    `json:"pages"` // page sizes, 0 = an empty page
 	Limit           int      `json:"limit"`
 	Reference       string   `json:"reference"`
+	Resolved        string   `json:"repository_resolves"` // sha256 | sha512: algorithm of the descriptor the repository resolves everything to
 	ReferenceString string   `json:"reference_string,omitempty"`
 }
 
 func (c *caseT) replay() replayCase {
-	rc := replayCase{Verifier: "scripted", Policy: "non-skip", Pages: append([]int{}, c.pages...), Limit: c.n, Reference: refNames[c.ref], ReferenceString: refStrings[c.ref], Listing: []string{}}
+	rc := replayCase{Verifier: "scripted", Policy: "non-skip", Pages: append([]int{}, c.pages...), Limit: c.n, Reference: refNames[c.ref], Resolved: c.w().name, ReferenceString: c.w().refStrings[c.ref], Listing: []string{}}
 	if c.pass != pScripted {
 		rc.Verifier = "real"
 	}
@@ -202,7 +300,7 @@ func (c *caseT) replay() replayCase {
 
 func (c *caseT) String() string {
 	rc := c.replay()
-	return fmt.Sprintf("verifier=%s policy=%s listing=[%s] pages=%v limit=%d reference=%s(%q)", rc.Verifier, rc.Policy, strings.Join(rc.Listing, ","), rc.Pages, rc.Limit, rc.Reference, rc.ReferenceString)
+	return fmt.Sprintf("verifier=%s policy=%s listing=[%s] pages=%v limit=%d repository-resolves=%s reference=%s(%q)", rc.Verifier, rc.Policy, strings.Join(rc.Listing, ","), rc.Pages, rc.Limit, rc.Resolved, rc.Reference, rc.ReferenceString)
 }
 
 func fromReplay(rc replayCase) (*caseT, error) {
@@ -223,6 +321,13 @@ func fromReplay(rc replayCase) (*caseT, error) {
 	}
 	if !found {
 		return nil, fmt.Errorf("unknown reference kind %q", rc.Reference)
+	}
+	switch rc.Resolved {
+	case "", "sha256":
+	case "sha512":
+		c.world = 1
+	default:
+		return nil, fmt.Errorf("unknown resolved algorithm %q", rc.Resolved)
 	}
 	for _, s := range rc.Listing {
 		ok := false
@@ -261,6 +366,7 @@ const (
 	clErrNoRef
 	clErrGarbage
 	clErrMismatch
+	clErrMalformed
 	clErrEmpty
 	clErrUnfetchable
 	clErrNilOutcome
@@ -279,20 +385,21 @@ var classNames = []string{
 	clErrNoRef:        "error:no-tag-or-digest",
 	clErrGarbage:      "error:garbage-reference",
 	clErrMismatch:     "error:digest-mismatch",
+	clErrMalformed:    "error:malformed-digest",
 	clErrEmpty:        "error:empty-listing",
 	clErrUnfetchable:  "error:unfetchable-before-success",
 	clErrNilOutcome:   "error:verifier-returned-nil-outcome(contract-breach,A.3)",
 	clErrNoValid:      "error:whole-listing-walked-none-valid",
 	clErrLimitReached: "error:limit-reached-before-success",
 	clSkip:            "skip:success-no-repository-call",
-	clSkipOtherDigest: "skip:other-digest(result-recorded,calls-judged)",
+	clSkipOtherDigest: "skip:other-or-malformed-digest(result-recorded,calls-judged)",
 	clRecordedTag:     "recorded:tag-reference-with-real-verifier(SkipVerify-parser-limitation)",
 }
 
 // short labels used inside violation keys
 var classLabel = []string{
 	clSuccessFirst: "success", clSuccessLater: "success", clErrLimit: "nonpositive-limit", clErrNoRef: "no-tag-or-digest", clErrGarbage: "garbage",
-	clErrMismatch: "digest-mismatch", clErrEmpty: "empty-listing", clErrUnfetchable: "unfetchable-before-success", clErrNilOutcome: "nil-outcome",
+	clErrMismatch: "digest-mismatch", clErrMalformed: "malformed-digest", clErrEmpty: "empty-listing", clErrUnfetchable: "unfetchable-before-success", clErrNilOutcome: "nil-outcome",
 	clErrNoValid: "no-valid-signature", clErrLimitReached: "limit-reached-before-success", clSkip: "skip-policy", clSkipOtherDigest: "skip-policy", clRecordedTag: "recorded",
 }
 
@@ -320,7 +427,7 @@ func reference(c *caseT) expectation {
 	if c.n <= 0 {
 		return fail(clErrLimit, callsNone)
 	}
-	if c.pass != pScripted && c.ref == rTag {
+	if c.pass != pScripted && c.ref.isTag() {
 		// SkipVerify's reference parser knows digest references only (documented TODO): recorded, not judged
 		return expectation{class: clRecordedTag, winner: -1}
 	}
@@ -331,14 +438,19 @@ func reference(c *caseT) expectation {
 		return fail(clErrGarbage, callsNone)
 	}
 	if c.pass == pSkip {
-		if c.ref == rOther {
+		if c.ref != rDigest {
 			// "differs from the resolved digest => error" and "skip => nothing is resolved" cannot both be demanded
 			return expectation{class: clSkipOtherDigest, calls: callsNone, judgeCalls: true, winner: -1}
 		}
 		return expectation{class: clSkip, success: true, calls: callsNone, judgeResult: true, judgeCalls: true, winner: -1}
 	}
-	if c.ref == rOther {
+	// "a digest reference that differs from the digest the repository resolves is an error", whatever the
+	// algorithm or spelling of either: at most Resolve may be called
+	if c.ref.isMismatch() {
 		return fail(clErrMismatch, callsResolveOnly)
+	}
+	if c.ref.isMalformed() {
+		return fail(clErrMalformed, callsResolveOnly)
 	}
 	i := 0
 	for _, s := range c.kinds { // the flattened listing: paging plays no part
@@ -392,7 +504,7 @@ var ctx = context.Background()
 func runCase(fx *realFixtures, c *caseT) (o *obs) {
 	lg := &callLog{}
 	o = &obs{log: lg}
-	repo := &mockRepo{resolved: resolved, manifests: manifests, blobDescs: blobDescs, blobs: scriptedBlobs, kinds: c.kinds, pages: c.pages, log: lg}
+	repo := &mockRepo{resolved: c.w().resolved, manifests: manifests, blobDescs: blobDescs, blobs: scriptedBlobs, kinds: c.kinds, pages: c.pages, log: lg}
 	var v notation.Verifier
 	switch c.pass {
 	case pScripted:
@@ -407,7 +519,7 @@ func runCase(fx *realFixtures, c *caseT) (o *obs) {
 			if k == kValid {
 				j = 0
 			}
-			blobs[i], descs[i] = fx.blobs[i][j], fx.descs[i][j]
+			blobs[i], descs[i] = fx.blobs[c.world][i][j], fx.descs[c.world][i][j]
 		}
 		repo.blobs, repo.blobDescs = blobs, descs
 		v = &loggingVerifier{inner: fx.strict, index: fx.index, n: len(c.kinds), log: lg}
@@ -418,7 +530,7 @@ func runCase(fx *realFixtures, c *caseT) (o *obs) {
 			o.panicked = p
 		}
 	}()
-	o.desc, o.outs, o.err = notation.Verify(ctx, v, repo, notation.VerifyOptions{ArtifactReference: refStrings[c.ref], MaxSignatureAttempts: c.n})
+	o.desc, o.outs, o.err = notation.Verify(ctx, v, repo, notation.VerifyOptions{ArtifactReference: c.w().refStrings[c.ref], MaxSignatureAttempts: c.n})
 	return o
 }
 
@@ -431,6 +543,10 @@ func judge(c *caseT, e *expectation, o *obs, viol func(key, detail string)) {
 	}
 	lg := o.log
 	label := classLabel[e.class]
+	if e.class == clErrMismatch || e.class == clErrMalformed {
+		label += ":" + refNames[c.ref] + "/repository-resolves-" + c.w().name
+	}
+	resolved, resolveArg := c.w().resolved, c.w().resolveArg
 	if e.judgeResult {
 		switch {
 		case e.success && o.err != nil:
@@ -469,6 +585,8 @@ func judge(c *caseT, e *expectation, o *obs, viol func(key, detail string)) {
 		lab := label
 		if e.class == clErrNoRef || e.class == clErrGarbage {
 			lab = refNames[c.ref]
+		} else if e.class == clSkipOtherDigest {
+			lab += ":" + refNames[c.ref]
 		}
 		if lg.anyRepositoryCall() {
 			viol("args/no-repository-call-expected:"+lab, fmt.Sprintf("repository was called: resolve=%v list=%d pages=%d fetch=%d", lg.resolves, len(lg.lists), len(lg.pages), len(lg.fetches)))
@@ -479,7 +597,7 @@ func judge(c *caseT, e *expectation, o *obs, viol func(key, detail string)) {
 		return
 	case callsResolveOnly:
 		if len(lg.lists)+len(lg.pages)+len(lg.fetches)+len(lg.verifies) > 0 {
-			viol("args/no-list-or-fetch-expected:"+label, fmt.Sprintf("list=%d pages=%d fetch=%d verify=%d although the digest of the reference is not the resolved one", len(lg.lists), len(lg.pages), len(lg.fetches), len(lg.verifies)))
+			viol("args/no-list-or-fetch-expected:"+label, fmt.Sprintf("list=%d pages=%d fetch=%d verify=%d although the digest of the reference is not the digest the repository resolves", len(lg.lists), len(lg.pages), len(lg.fetches), len(lg.verifies)))
 		}
 		for _, a := range lg.resolves {
 			if a != resolveArg[c.ref] {
@@ -699,10 +817,10 @@ func pagings(k int, emptyPages bool) [][]int {
 }
 
 type spaceT struct {
-	pass       int
-	alphabet   []kind
-	maxLen     int
-	emptyPages bool
+	pass      int
+	alphabet  []kind
+	maxLen    int
+	emptyUpTo int // listings of up to this length are also paged with one empty page at each position (-1: never)
 }
 
 func enumerate(r *hx.Run, fx *realFixtures, sp spaceT) {
@@ -710,7 +828,7 @@ func enumerate(r *hx.Run, fx *realFixtures, sp spaceT) {
 	pg := make([][][]int, sp.maxLen+1)
 	npg := 0
 	for k := 0; k <= sp.maxLen; k++ {
-		pg[k] = pagings(k, sp.emptyPages)
+		pg[k] = pagings(k, k <= sp.emptyUpTo)
 	}
 	for _, l := range listings {
 		npg += len(pg[len(l)])
@@ -720,7 +838,7 @@ func enumerate(r *hx.Run, fx *realFixtures, sp spaceT) {
 	r.Extra[name+"_listing_x_paging"] = npg
 	r.Extra[name+"_max_listing_length"] = sp.maxLen
 	r.Extra[name+"_signature_kinds"] = len(sp.alphabet)
-	r.Extra[name+"_empty_pages"] = sp.emptyPages
+	r.Extra[name+"_empty_pages_for_listings_up_to"] = sp.emptyUpTo
 	r.Extra[name+"_runs"] = npg * len(limits) * len(allRefs)
 	var done atomic.Int64
 	r.Parallel(len(listings), func(i int) {
@@ -733,7 +851,7 @@ func enumerate(r *hx.Run, fx *realFixtures, sp spaceT) {
 		for _, pages := range pg[len(kinds)] {
 			for ni, n := range limits {
 				for _, ref := range allRefs {
-					c := &caseT{pass: sp.pass, kinds: kinds, pages: pages, n: n, ref: ref}
+					c := &caseT{pass: sp.pass, kinds: kinds, pages: pages, n: n, ref: ref.kind, world: ref.world}
 					e := reference(c)
 					o := runCase(fx, c)
 					evals++
@@ -833,15 +951,15 @@ func main() {
 		r.SetDeadline(9 * time.Minute)
 		realN = 3
 		spaces = []spaceT{
-			{pScripted, four, 6, true},
-			{pSkip, four, 4, true},
-			{pReal, three, 3, true},
+			{pScripted, four, 6, 6},
+			{pSkip, four, 4, 4},
+			{pReal, three, 3, 3},
 		}
 	} else {
 		spaces = []spaceT{
-			{pScripted, four, 5, true},
-			{pSkip, three, 3, false},
-			{pReal, three, 2, true},
+			{pScripted, four, 5, 4},
+			{pSkip, three, 3, -1},
+			{pReal, three, 2, 2},
 		}
 	}
 	fx := buildReal(r, realN)
@@ -860,6 +978,7 @@ func main() {
 	}
 	r.Extra["limits"] = limits
 	r.Extra["reference_kinds"] = refNames
+	r.Extra["repository_resolves"] = worldNames
 	r.Extra["recorded_failure_outcomes_slice"] = hist([]string{"nil", "empty", "non-empty"}, recFailOuts[:])
 	r.Extra["recorded_failure_descriptor"] = hist([]string{"zero", "non-zero"}, recFailDesc[:])
 	r.Extra["recorded_pages_left_when_limit_reached"] = hist([]string{"not-requested", "requested"}, recPagesLimit[:])
